@@ -122,7 +122,9 @@ def series_monitor(m, payload):
             cands = [p for p in range(1, N + 1) if N // p == redrill and RR.is_periodic(list(Tprod), p)]
             period = min(cands) if cands else N
         if rm in (3, 4):
-            Tinj = float(V(wb, 'Tinj'))
+            # the injection temperature the reservoir model was run with is the input's: flash and ORC plants may lower wellbores.Tinj afterwards
+            # (their own reinjection temperature), which must not enter the closed-form reservoir profile
+            Tinj = float(inp['Injection Temperature']) if 'Injection Temperature' in inp else float(V(wb, 'Tinj'))
             if Trock >= Tinj:
                 over = np.where(Tres > Trock * (1 + 1e-12) + 1e-9)[0]
                 if over.size:
